@@ -87,6 +87,8 @@ struct MapSt {
     synced: [Option<u64>; 3],
     updates_since_sync: u64,
     file_sig: Option<[u64; 3]>,
+    /// the map's files exist (it was opened at least once)
+    ever_opened: bool,
 }
 
 #[cfg(feature = "hooks")]
@@ -96,6 +98,14 @@ fn take_trace() -> Vec<(String, &'static str)> {
 #[cfg(not(feature = "hooks"))]
 fn take_trace() -> Vec<(String, &'static str)> {
     Vec::new()
+}
+
+/// progress counter of this process (ops executed, transitions taken, ...): the watchdog tells a
+/// hang (no progress) from a slow case (progress) by it
+pub static PROGRESS: std::sync::atomic::AtomicU64 = std::sync::atomic::AtomicU64::new(0);
+
+pub fn tick() {
+    PROGRESS.fetch_add(1, std::sync::atomic::Ordering::Relaxed);
 }
 
 pub fn fnv(data: &[u8]) -> u64 {
@@ -213,6 +223,7 @@ impl<'a> Exec<'a> {
                 synced: [None; 3],
                 updates_since_sync: 1, // creation counts as an update
                 file_sig: None,
+                ever_opened: !ms.late,
             });
         }
         Ok(e)
@@ -243,6 +254,7 @@ impl<'a> Exec<'a> {
             Ok(m) => {
                 self.maps[mi].handles.push(m);
                 self.maps[mi].cur = 0;
+                self.maps[mi].ever_opened = true;
                 if self.dbs.len() > 1 {
                     self.rep.bump("late_map_opened_through_db_clone");
                 }
@@ -270,8 +282,17 @@ impl<'a> Exec<'a> {
 
     fn step(&mut self, i: usize, op: &Op) -> Result<(), Failure> {
         let o = Some(i);
-        let obs = self.h.obs.clone();
-        if !matches!(op, Op::Use { .. } | Op::Reopen { .. }) {
+        tick();
+        let mut obs = self.h.obs.clone();
+        if i < self.h.quiet_prefix {
+            obs.decode_every_op = false;
+            obs.full_compare_every_op = false;
+            obs.isolation = false;
+        }
+        if !matches!(
+            op,
+            Op::Use { .. } | Op::Reopen { .. } | Op::DropAll | Op::DbSyncData | Op::DbSyncAll
+        ) {
             self.ensure_open(self.curm, o)?;
         }
         if obs.isolation && op.is_update() {
@@ -288,6 +309,25 @@ impl<'a> Exec<'a> {
                 }
                 self.maps[self.curm].model.insert(key, val);
                 self.maps[self.curm].updates_since_sync += 1;
+            }
+            Op::Burst { k, v, n } => {
+                let key = self.key(*k);
+                let val = v.bytes();
+                self.note_put(&key, &val);
+                for j in 0..*n {
+                    if j % 1024 == 0 {
+                        tick();
+                    }
+                    if let Err(e) = self.hnd().put(&key, &val) {
+                        fail!("error", o, "put #{j} of a burst of {n} identical puts returned Err: {e}");
+                    }
+                }
+                self.maps[self.curm].model.insert(key, val);
+                self.maps[self.curm].updates_since_sync += 1;
+                self.rep.bump("burst");
+                if *n >= 65535 {
+                    self.rep.bump("burst_ge_65535");
+                }
             }
             Op::PutStr { k, v } => {
                 let key = self.key(*k);
@@ -529,6 +569,49 @@ impl<'a> Exec<'a> {
                 let out = self.hnd().iterate(f, take.map(|t| t as usize), 3);
                 self.check_iter(o, f, *take, &out)?;
             }
+            Op::IterMix { f, every, k } => {
+                let f = *f % 7;
+                let every = (*every as usize % 5) + 1;
+                let ms = &self.maps[self.curm];
+                let keys = ms.keys.clone();
+                let model = ms.model.clone();
+                let k0 = *k as usize;
+                let mut bad: Option<String> = None;
+                let mut between = |h: &mut dyn MapH, step: usize| {
+                    let key = &keys[(k0 + step) % keys.len()];
+                    match h.get(key) {
+                        Ok(v) => {
+                            if v.as_ref() != model.get(key) && bad.is_none() {
+                                bad = Some(format!(
+                                    "get({}) between traversal steps returned {} but the model says {}",
+                                    hex(&key[..key.len().min(16)]),
+                                    short(&v),
+                                    short(&model.get(key).cloned())
+                                ));
+                            }
+                        }
+                        Err(e) => {
+                            if bad.is_none() {
+                                bad = Some(format!("get between traversal steps returned Err: {e}"));
+                            }
+                        }
+                    }
+                    match h.len() {
+                        Ok(l) if l == model.len() as u64 => {}
+                        other => {
+                            if bad.is_none() {
+                                bad = Some(format!("len() between traversal steps = {:?}, model has {}", other.ok(), model.len()));
+                            }
+                        }
+                    }
+                };
+                let out = self.hnd().iterate_mixed(f, every, &mut between);
+                if let Some(b) = bad {
+                    fail!("mismatch", o, "{}: {b}", ITER_FLAVOURS[f as usize]);
+                }
+                self.check_iter(o, f, None, &out)?;
+                self.rep.bump("iter_with_interleaved_reads");
+            }
             Op::Stats => {
                 let st = match self.hnd().stats() {
                     Ok(s) => s,
@@ -561,6 +644,12 @@ impl<'a> Exec<'a> {
                     ms.cur = 0;
                     self.rep.bump("handle_drop");
                 }
+            }
+            Op::DropAll => {
+                let ms = &mut self.maps[self.curm];
+                ms.handles.clear();
+                ms.cur = 0;
+                self.rep.bump("all_user_handles_dropped");
             }
             Op::Reacquire => {
                 let db = self.dbs[0].clone();
@@ -826,7 +915,7 @@ impl<'a> Exec<'a> {
         let trace = take_trace();
         self.rep.bump("sync_point");
         let targets: Vec<usize> = if whole_db {
-            (0..self.maps.len()).collect()
+            (0..self.maps.len()).filter(|&mi| self.maps[mi].ever_opened).collect()
         } else {
             vec![self.curm]
         };
@@ -1372,6 +1461,7 @@ impl<'a> Exec<'a> {
             };
             self.maps[mi].handles.push(hnd);
             self.maps[mi].cur = 0;
+            self.maps[mi].ever_opened = true;
             self.maps[mi].params = *params;
             self.maps[mi].updates_since_sync = 0;
             // a clean close is as good as an OS-level flush for our purposes, not a sync
@@ -1422,10 +1512,20 @@ impl<'a> Exec<'a> {
             dir: self.ctx.dir.to_string_lossy().to_string(),
             maps,
         };
-        let got = match crate::childproc::run_verify_child(&exe, &req, &self.ctx.dir) {
+        // every other child verification runs under an allocator that places byte buffers at odd
+        // addresses (results must not depend on where a key buffer lives)
+        let mis = self.rep.get("child_reopen") % 2 == 1;
+        let got = match if mis {
+            crate::childproc::run_verify_child_misaligned(&exe, &req, &self.ctx.dir)
+        } else {
+            crate::childproc::run_verify_child(&exe, &req, &self.ctx.dir)
+        } {
             Ok(g) => g,
-            Err(e) => fail!("child", o, "reopen in a fresh process failed: {e}"),
+            Err(e) => fail!("child", o, "reopen in a fresh process{} failed: {e}", if mis { " (byte buffers at odd addresses)" } else { "" }),
         };
+        if mis {
+            self.rep.bump("child_reopen_misaligned_allocator");
+        }
         for (mi, ms) in self.maps.iter().enumerate() {
             let exp = crate::childproc::digest_model(&ms.keys, &ms.model);
             if got.maps.get(mi) != Some(&exp) {
@@ -1597,7 +1697,7 @@ pub fn model_after(h: &History, n_ops: usize) -> Vec<BTreeMap<Vec<u8>, Vec<u8>>>
     let key = |m: usize, k: u32| -> Vec<u8> { keys[m][k as usize % keys[m].len()].clone() };
     for op in h.ops.iter().take(n_ops) {
         match op {
-            Op::Put { k, v } => {
+            Op::Put { k, v } | Op::Burst { k, v, .. } => {
                 models[cur].insert(key(cur, *k), v.bytes());
             }
             Op::PutStr { k, v } => {
